@@ -542,6 +542,27 @@ theorem enumItems_spec (ty : NlriTy) (bs : Bytes) :
   | known f ap => exact famItems_spec f ap bs
   | unsupported a s => simp [enumItems, ErrLast]
 
+/-- an NLRI iterator over a non-empty section yields at least one item (an
+`Ok` or the `Err` it stops with); over an empty one it yields nothing -/
+theorem nlriItems_nil_iff {α : Type} (c : Codec α) (bs : Bytes) : (nlriItems c bs).1 = [] ↔ bs = [] := by
+  cases bs with
+  | nil => simp [nlriItems, collect, nlriNext]
+  | cons x r =>
+    simp only [nlriItems, List.length_cons, collect, nlriNext]
+    cases c.dec (x :: r) <;> simp
+
+theorem famItems_nil_iff (f : Fam) (ap : Bool) (bs : Bytes) : (famItems f ap bs).1 = [] ↔ bs = [] := by
+  unfold famItems
+  cases ap
+  · simpa using nlriItems_nil_iff (codec f) bs
+  · simpa using nlriItems_nil_iff (codecAp f) bs
+
+/-- for a supported family "the MP_UNREACH_NLRI iterator yields nothing" and
+"no octets follow AFI/SAFI" are the same thing (for an unsupported one the
+iterator yields nothing whatever follows) -/
+theorem enumItems_known_nil_iff (f : Fam) (ap : Bool) (bs : Bytes) :
+    (enumItems (.known f ap) bs).1 = [] ↔ bs = [] := famItems_nil_iff f ap bs
+
 /-! ### validation never panics -/
 
 theorem decAllFuel_noPanic {α : Type} {c : Codec α} (hn : NoPanic c) :
@@ -780,6 +801,91 @@ theorem getAttr_mem : ∀ (items : List (Outcome Wire)) (code : Nat) (w : Wire),
       · obtain ⟨h1, h2⟩ := ih code w h; exact ⟨by simp [h1], h2⟩
     | err => simp only [getAttr] at h; obtain ⟨h1, h2⟩ := ih code w h; exact ⟨by simp [h1], h2⟩
     | panic => simp only [getAttr] at h; obtain ⟨h1, h2⟩ := ih code w h; exact ⟨by simp [h1], h2⟩
+
+/-- the checked iterator and the parse-time walk cut the attribute section at the same places: where
+`splitAttr` finds a complete TLV, `PathAttributes::next` yields an `Ok` item and goes on after it
+(whatever the ASN width the values are classified under) -/
+theorem paNext_of_split (four : Bool) (bs : Bytes) (fl tc : UInt8) (v r : Bytes)
+    (h : splitAttr bs = some (fl, tc, v, r)) : paNext four bs = some (.ok (classify four fl tc v), r) := by
+  unfold splitAttr at h
+  split at h
+  · rename_i fl' tc' rest
+    unfold paNext
+    split at h
+    · rename_i he
+      simp only [he, ↓reduceIte]
+      split at h
+      · rename_i n r0 hr
+        split at h
+        · rename_i v' r' ht
+          simp only [Option.some.injEq, Prod.mk.injEq] at h
+          obtain ⟨rfl, rfl, rfl, rfl⟩ := h
+          simp [hr, ht]
+        · cases h
+      · cases h
+    · rename_i he
+      simp only [he]
+      split at h
+      · rename_i n r0 hr
+        split at h
+        · rename_i v' r' ht
+          simp only [Option.some.injEq, Prod.mk.injEq] at h
+          obtain ⟨rfl, rfl, rfl, rfl⟩ := h
+          cases rest with
+          | nil => simp [rd8] at hr
+          | cons l r1 =>
+            simp only [rd8, Option.some.injEq, Prod.mk.injEq] at hr
+            obtain ⟨rfl, rfl⟩ := hr
+            simp [ht]
+        · cases h
+      · cases h
+  · cases h
+
+/-- on a section the parse-time walk accepted, every item of `path_attributes()` is `Ok` -/
+theorem pa_collect_all_ok (four : Bool) : ∀ (g f : Nat) (bs : Bytes), attrsWalk f bs = .ok () →
+    ∀ x ∈ (collect (paNext four) g bs).1, ∃ w, x = .ok w := by
+  intro g
+  induction g with
+  | zero => intro f bs _ x hx; simp [collect] at hx
+  | succ g ih =>
+    intro f bs hw x hx
+    simp only [collect] at hx
+    cases hn : paNext four bs with
+    | none => simp [hn] at hx
+    | some p =>
+      obtain ⟨i, s'⟩ := p
+      simp only [hn, List.mem_cons] at hx
+      have hne : bs ≠ [] := by
+        rintro rfl
+        simp [paNext] at hn
+      cases f with
+      | zero =>
+        unfold attrsWalk at hw
+        cases bs with
+        | nil => exact absurd rfl hne
+        | cons _ _ => simp at hw
+      | succ f =>
+        unfold attrsWalk at hw
+        cases bs with
+        | nil => exact absurd rfl hne
+        | cons b t =>
+          simp only [List.isEmpty_cons, Bool.false_eq_true, ↓reduceIte] at hw
+          unfold parseWire at hw
+          cases hs : splitAttr (b :: t) with
+          | none => simp [hs] at hw
+          | some q =>
+            obtain ⟨fl, tc, v, r⟩ := q
+            have hr : attrsWalk f r = .ok () := by
+              cases hv : validate tc.toNat true v with
+              | none => simpa [hs, hv] using hw
+              | some b => cases b <;> simpa [hs, hv] using hw
+            have hp := paNext_of_split four (b :: t) fl tc v r hs
+            rw [hn] at hp
+            simp only [Option.some.injEq, Prod.mk.injEq] at hp
+            obtain ⟨rfl, rfl⟩ := hp
+            rcases hx with rfl | hx
+            · exact ⟨_, rfl⟩
+            · exact ih f s' hr x hx
 
 /-- the value a typed getter works on was accepted by its type's `validate`
 under the message's own ASN width -/
